@@ -347,9 +347,7 @@ def translate(repo=None):
     for name in ('gamma_UNIFAC', 'gamma_modified_UNIFAC'):
         gdir, scatter, psi, lgc = wrapper_holes(fns[name])
         info[name] = [gdir, scatter, psi, lgc]
-        psi_term = (f'(fun T_ inter_ => {psi} K T_ (unwrap2 inter_))' if psi == 'psi_UNIFAC'
-                    else f'(fun T_ inter_ => {psi} K T_ inter_)')
-        w.append(f'Definition {name} := wrapper K {gdir} {scatter} {psi_term} ({lgc} K) '
+        w.append(f'Definition {name} := wrapper K {gdir} {scatter} ({psi} K) ({lgc} K) '
                  f'(group_activity_coefficients K).')
         w.append('')
     w.append('End GenW.')
